@@ -27,7 +27,7 @@ import aiofiles.os
 # from charset_normalizer import from_bytes
 
 if TYPE_CHECKING:
-    from collections.abc import AsyncIterator, Callable
+    from collections.abc import AsyncIterator, Callable, Iterator
     from email.message import EmailMessage
     from typing import IO
 
@@ -181,6 +181,23 @@ class MH(mailbox.MH):
                 yield
             finally:
                 self.unlock()
+
+    ####################################################################
+    #
+    def iterkeys(self) -> "Iterator[int]":
+        """Return an iterator over the message keys of this folder.
+
+        A sub-folder whose name is just digits (eg: `Archive/2024`) is not a
+        message of this folder.
+        """
+        with os.scandir(self._path) as entries:
+            return iter(
+                sorted(
+                    int(entry.name)
+                    for entry in entries
+                    if entry.name.isdigit() and not entry.is_dir()
+                )
+            )
 
     ####################################################################
     #
